@@ -208,7 +208,16 @@ def gen_program(rng, conflict=False):
                     return ["+", ["var", rng.choice(loc["cplx"])], realexpr(1)]
                 return base
 
-            if r < 0.30:
+            if r < 0.05 and (loc["arr"] or loc["ut"]):
+                # an accumulator that starts as a (complex or real) scalar and widens to an array / user type:
+                # legal joins, reached in an order that depends on the presentation
+                big = rng.choice(loc["arr"] + loc["ut"])
+                kind = "arr" if big in loc["arr"] else "ut"
+                acc = lhs("acc", "carr" if kind == "arr" else "ut")
+                start = cplxexpr() if (rng.random() < 0.6 and kind == "arr") else realexpr(0)
+                phases[pn].append(["assign", acc, start])
+                phases[pn].append(["assign", acc, ["+", ["var", acc], ["var", big]]])
+            elif r < 0.30:
                 rhs = realexpr()
                 phases[pn].append(["assign", lhs("x", "real"), rhs])
             elif r < 0.42:
